@@ -86,6 +86,9 @@ func (s *Scenario) String() string {
 	if s.PreemptBound > 0 {
 		parts = append(parts, fmt.Sprintf("preemptions<%d", s.PreemptBound))
 	}
+	if s.Note == "supplement" {
+		parts = append(parts, "supplement")
+	}
 	return strings.Join(parts, " ")
 }
 
